@@ -20,6 +20,7 @@ PRELUDE = '''printf :: (f: str, n: i64) extern;
 putchar :: (c: char) -> i32 extern;
 mark :: (n: i64) { printf("\\n@%ld\\n", n); }
 nilf :: () -> ?i32 { nil }
+Oops :: enum { Bad, Worse };
 '''
 
 # skeleton nodes: tuples
@@ -118,7 +119,8 @@ def interesting(items):
 # printing
 
 class Printer:
-    def __init__(self):
+    def __init__(self, form="opt-i32-tail"):
+        self.form = form
         self.lines = []
         self.n_defer = 0
         self.n_print = 0
@@ -171,15 +173,25 @@ class Printer:
                 elif kind == "continue":
                     self.lines.append(f"{pad}continue{lab};")
                 elif kind == "return":
-                    self.lines.append(f"{pad}return 5;")
+                    self.lines.append(f"{pad}return 5;" if self.form == "opt-i32-tail" else f"{pad}return;")
                 else:
                     self.lines.append(f"{pad}nilf().try;")
 
 
-def render(items, name):
-    p = Printer()
+FORMS = {
+    # form -> (result type, tail line)
+    "opt-i32-tail": (" -> ?i32", "    7\n"),
+    "void": ("", ""),             # the body falls off its end; `return;`
+    "opt-void": (" -> ?void", ""),  # a block type that can be created from nothing but is not zero-sized
+    "err-void": (" -> Oops!void", ""),
+}
+
+
+def render(items, name, form="opt-i32-tail"):
+    p = Printer(form)
     p.block(items, 1, "n")
-    return f"{name} :: (n: i32) -> ?i32 {{\n" + "\n".join(p.lines) + "\n    7\n}\n"
+    ret, tail = FORMS[form]
+    return f"{name} :: (n: i32){ret} {{\n" + "\n".join(p.lines) + "\n" + tail + "}\n"
 
 
 # ----------------------------------------------------------------------------------------------
@@ -314,11 +326,23 @@ def expected_output(items, defects=()):
     return a + "|" + b + "\n"
 
 
-def make_case(idx, items):
-    name = f"f{idx}"
-    decls = render(items, name)
+def make_case(idx, items, form="opt-i32-tail"):
+    name = f"f{idx}" if form == "opt-i32-tail" else f"f{idx}_{form.replace('-', '_')}"
+    decls = render(items, name, form)
     body = f"{name}(0); putchar('|'); {name}(1); putchar('\\n');"
-    return Case(f"skel/{idx}/{encode(items)}", body, expected_output(items), decls, meta={"items": items})
+    prefix = "skel" if form == "opt-i32-tail" else f"skel-{form}"
+    return Case(f"{prefix}/{idx}/{encode(items)}", body, expected_output(items), decls, meta={"items": items, "form": form})
+
+
+def has_try(items):
+    for it in items:
+        if it[0] == "X" and it[1] == "try":
+            return True
+        if it[0] in ("B", "W") and has_try(it[2]):
+            return True
+        if it[0] in ("O", "I") and has_try(it[1]):
+            return True
+    return False
 
 
 def encode(items):
@@ -338,6 +362,17 @@ def encode(items):
         else:
             out.append({"break": "b", "continue": "c", "return": "r", "try": "t"}[it[1]] + (it[2] or ""))
     return "".join(out)
+
+
+def count_items(items):
+    n = 0
+    for it in items:
+        n += 1
+        if it[0] in ("B", "W"):
+            n += count_items(it[2])
+        elif it[0] in ("O", "I"):
+            n += count_items(it[1])
+    return n
 
 
 MODELS = ["unreached-defers-run", "continue-skips-defers", "break-from-loop-runs-outer-defers"]
@@ -365,6 +400,14 @@ def run(tier, seed):
         seen.add(key)
         skeletons.append(items)
     cases = [make_case(i, items) for i, items in enumerate(skeletons)]
+    # the same skeletons in functions whose body falls off its end (void, ?void, E!void results); quick: <= 3 items
+    for form in ("void", "opt-void", "err-void"):
+        for i, items in enumerate(skeletons):
+            if quick and count_items(items) > 3:
+                continue
+            if has_try(items) and form != "opt-void":
+                continue
+            cases.append(make_case(i, items, form))
     runner = core.Runner("c03", batch_size=150, prelude=PRELUDE)
     mism = runner.run(cases)
     outcomes = {c.expected for c in cases}
@@ -378,6 +421,7 @@ def run(tier, seed):
         "rule": "states = control skeletons (each compiled by the real CLI and run with n = 0 and n = 1); transitions = statements; "
                 "the printed character sequence must equal the defer-stack interpreter's",
         "bounds_completed": {"max_items": budget, "max_nesting_depth": depth,
+                             "function_forms": list(FORMS),
                              "constructs": ["defer", "print", "block", "labelled block", "while", "labelled while", "loop", "if",
                                             "break", "break `l", "continue", "continue `l", "return", ".try"]},
         "distinct_outcomes": len(outcomes),
